@@ -1,6 +1,8 @@
 #!/usr/bin/env python3
 """Generates spec/C03.json, spec/C16.json, spec/C07.json from the proto shape table (harness/proto/types.go)."""
-import json, os
+import json, os, sys
+sys.path.insert(0, os.path.dirname(os.path.abspath(__file__)))
+from cap_thorough import cap_spec
 root = os.path.dirname(os.path.dirname(os.path.abspath(__file__)))
 # shape index -> (name, wide bits used, uses vfLen (string/bytes length), uses vfLen2 (element count / 2nd length))
 shapes = [
@@ -25,7 +27,8 @@ def units(prefix, harness, desc, covers, reps_q=[0, 1, 2], reps_t=[0, 1, 2, 11],
     us = []
     for i, (name, nw, ulen, ulen2) in enumerate(shapes):
         # narrow values: all element counts; one full-width field at a time: element counts <= 1 (quick) / <= 2 (thorough)
-        g = grid(i, None, reps_q, reps_t)
+        rt = [r for r in reps_t if r <= 2] if name in ("maps", "mapptr") else reps_t  # symbolic map keys: pairwise key comparisons explode beyond 2 entries
+        g = grid(i, None, reps_q, rt)
         g["vfWide"] = {"all": [0]}
         u = {"name": "%s-%s" % (prefix, name), "desc": desc + " (shape %s, byte-range integers)" % name, "pkg": "./proto", "overlay": ["harness/proto"], "harness": harness,
              "grid": g, "covers": covers, "timeout_ms": 30000, "concret": ["github.com/segmentio/encoding/proto.sizeOfVarint"], "split": {"all": 6}}
@@ -84,6 +87,9 @@ for idx, nm in ((0, "scalars"), (4, "nested"), (7, "maps")):
     c07["units"].append({"name": "H07-unknown-deep-" + nm, "desc": "the same with every base field number 1..top+2, k up to 8190 (numbers up to 2^29) and full-width varint payloads (thorough tier; shape %s)" % nm, "pkg": "./proto", "overlay": ["harness/proto"], "harness": "vfH_c07_unknown",
                          "grid": {"vfShape": {"all": [idx]}, "vfWide": {"all": [0]}, "vfLen": {"all": [1]}, "vfLen2": {"all": [1] if nm == "maps" else [0]}, "vfMode": {"quick": [0], "thorough": [0, 2]}, "vfDeep": {"quick": [0], "thorough": [1]}}, "covers": ["done"], "timeout_ms": 30000, "concret": ["github.com/segmentio/encoding/proto.sizeOfVarint"], "split": {"all": 6}})
 c07["outside_claim"] = ["free byte strings longer than the bounds", "types outside the catalogue", "unknown fields inserted inside embedded messages and map entries (top-level boundaries only)", "group wire types 3/4 (rejected by the decoder)"]
+CAPPED = {"C03", "C07", "C01", "C14", "C06"}  # thorough tier bounded to one deepened variable per unit (see cap_thorough.py)
 for fn, spec in (("C03", c03), ("C16", c16), ("C07", c07)):
+    if fn in CAPPED:
+        cap_spec(spec)
     json.dump(spec, open(os.path.join(root, "spec", fn + ".json"), "w"), indent=1)
 print("ok")
